@@ -155,6 +155,7 @@ type Client struct {
 	pendingCmds  []command
 	contReqs     []continuationRequest
 	closed       bool
+	readerDone   bool // the read goroutine has completed the pending commands and is exiting
 }
 
 // New creates a new IMAP client.
@@ -532,13 +533,25 @@ func (c *Client) registerContReq(cmd command) *imapwire.ContinuationRequest {
 	return contReq
 }
 
-func (c *Client) closeWithError(err error) {
+// closeWithError closes the connection and completes the pending commands
+// with an error.
+//
+// Pending commands are only completed by the read goroutine when it exits
+// (readerExit is true), or after it has exited: while it's running, it may be
+// delivering data to these commands. Closing the connection makes it exit.
+func (c *Client) closeWithError(err error, readerExit bool) {
 	c.conn.Close()
 
 	c.mutex.Lock()
 	c.state = imap.ConnStateLogout
-	pendingCmds := c.pendingCmds
-	c.pendingCmds = nil
+	if readerExit {
+		c.readerDone = true
+	}
+	var pendingCmds []command
+	if c.readerDone {
+		pendingCmds = c.pendingCmds
+		c.pendingCmds = nil
+	}
 	c.mutex.Unlock()
 
 	for _, cmd := range pendingCmds {
@@ -561,7 +574,7 @@ func (c *Client) read() {
 		if cmdErr == nil {
 			cmdErr = io.ErrUnexpectedEOF
 		}
-		c.closeWithError(cmdErr)
+		c.closeWithError(cmdErr, true)
 	}()
 
 	c.setReadTimeout(idleReadTimeout)
@@ -1080,7 +1093,7 @@ func (ce *commandEncoder) flush() {
 		if !errors.As(err, &imapErr) {
 			// TODO: consider stashing the error in Client to return it in future
 			// calls
-			ce.client.closeWithError(err)
+			ce.client.closeWithError(err, false)
 		}
 	}
 	ce.Encoder = nil
